@@ -117,17 +117,34 @@ func runCaps(e *capsEntry, implicit bool, n int, used bool) []string {
 		}
 	}
 	mail := "MAIL FROM:<a@x.test>"
-	probe("mail_smtputf8", code(mail+" SMTPUTF8"))
+	// keywords are case-insensitive: the spelling rotates with the configuration
+	style := (c.MaxBytes + c.MaxRcpt + btoi(c.Utf8) + 2*btoi(c.Dsn) + btoi(c.Lmtp) + btoi(c.RequireTLS) + btoi(implicit) + btoi(used)) % 3
+	kw := func(s string) string {
+		switch style {
+		case 1:
+			return strings.ToLower(s)
+		case 2:
+			b := []byte(strings.ToLower(s))
+			for i := 0; i < len(b); i += 2 {
+				if b[i] >= 'a' && b[i] <= 'z' {
+					b[i] -= 32
+				}
+			}
+			return string(b)
+		}
+		return s
+	}
+	probe("mail_smtputf8", code(mail+" "+kw("SMTPUTF8")))
 	code("RSET")
-	probe("mail_requiretls", code(mail+" REQUIRETLS"))
+	probe("mail_requiretls", code(mail+" "+kw("REQUIRETLS")))
 	code("RSET")
-	probe("mail_binarymime", code(mail+" BODY=BINARYMIME"))
+	probe("mail_binarymime", code(mail+" "+kw("BODY")+"="+kw("BINARYMIME")))
 	code("RSET")
-	probe("mail_8bitmime", code(mail+" BODY=8BITMIME"))
+	probe("mail_8bitmime", code(mail+" "+kw("BODY")+"="+kw("8BITMIME")))
 	code("RSET")
-	probe("mail_ret", code(mail+" RET=FULL"))
+	probe("mail_ret", code(mail+" "+kw("RET")+"="+kw("FULL")))
 	code("RSET")
-	probe("mail_envid", code(mail+" ENVID=QQ314159"))
+	probe("mail_envid", code(mail+" "+kw("ENVID")+"=QQ314159"))
 	code("RSET")
 	probe("mail_size_ok", code(fmt.Sprintf("%s SIZE=%d", mail, n-1)))
 	code("RSET")
@@ -136,13 +153,13 @@ func runCaps(e *capsEntry, implicit bool, n int, used bool) []string {
 	probe("mail_size_over", code(fmt.Sprintf("%s SIZE=%d", mail, n+1)))
 	code("RSET")
 	code(mail)
-	probe("rcpt_notify", code("RCPT TO:<b@x.test> NOTIFY=SUCCESS,FAILURE"))
+	probe("rcpt_notify", code("RCPT TO:<b@x.test> "+kw("NOTIFY")+"="+kw("SUCCESS,FAILURE")))
 	code("RSET")
 	code(mail)
-	probe("rcpt_orcpt", code("RCPT TO:<b@x.test> ORCPT=rfc822;b@x.test"))
+	probe("rcpt_orcpt", code("RCPT TO:<b@x.test> "+kw("ORCPT")+"="+kw("rfc822")+";b@x.test"))
 	code("RSET")
 	code(mail)
-	probe("rcpt_rrvs", code("RCPT TO:<b@x.test> RRVS=2014-04-03T23:01:00Z"))
+	probe("rcpt_rrvs", code("RCPT TO:<b@x.test> "+kw("RRVS")+"=2014-04-03T23:01:00Z"))
 	code("RSET")
 	code(mail)
 	for i := 0; i < n; i++ {
@@ -154,9 +171,9 @@ func runCaps(e *capsEntry, implicit bool, n int, used bool) []string {
 	code("RSET")
 	code(mail)
 	code("RCPT TO:<b@x.test>")
-	probe("bdat", code("BDAT 0 LAST"))
-	probe("auth", code("AUTH PLAIN AHVzZXIAcGFzcw=="))
-	probe("starttls", code("STARTTLS"))
+	probe("bdat", code(kw("BDAT")+" 0 "+kw("LAST")))
+	probe("auth", code(kw("AUTH")+" "+kw("PLAIN")+" AHVzZXIAcGFzcw=="))
+	probe("starttls", code(kw("STARTTLS")))
 	return problems
 }
 
@@ -228,4 +245,11 @@ func init() {
 		}, []string{"the limits use N = 7; TLS active is exercised both via STARTTLS and as implicit TLS",
 			"REQUIRETLS accepted on a plaintext connection when the flag is on (it is not advertised there) is what the code does and is not judged: the property only demands refusal for extensions the configuration disables"})
 	}
+}
+
+func btoi(b bool) int {
+	if b {
+		return 1
+	}
+	return 0
 }
